@@ -16,7 +16,9 @@ EXPLANATION = (
   "never killed unflushed (R4,R5); the independent interpreter (TableDataSet) covers every action "
   "type with matching arity (R6); stored is written only by the gateway, the flushers and InitNewDoc "
   "(R7); actions built from all_columns exclude private/virtual columns (R8); row presence "
-  "tracking of the calc summary records the last add/remove (R9). Not decided: value equality of "
+  "tracking of the calc summary records the last add/remove (R9); before the gateway records an "
+  "update action, the calculated changes still pending for each of its data columns are turned "
+  "into actions, so they stay ahead of the explicit write (R10). Not decided: value equality of "
   "a replay; correctness of prune_actions.")
 
 
@@ -31,7 +33,7 @@ def check(run, repo, tier):
   # helper keep their place
   import os
   _HERE = os.path.dirname(os.path.abspath(__file__))
-  decide(run, repo, [r1_gateway, r2_dispatch, r3_change_capture, r4_flush, r5_flush_complete, r6_interpreter, r7_stored_writers, r8_private_excluded, r9_presence],
+  decide(run, repo, [r1_gateway, r2_dispatch, r3_change_capture, r4_flush, r5_flush_complete, r6_interpreter, r7_stored_writers, r8_private_excluded, r9_presence, r10_update_flush],
          anchors_of(os.path.join(_HERE, "c02.py"), os.path.join(_HERE, "_h_E.py"), os.path.join(_HERE, "../events.py")),
          more_anchors=_role_anchors)
 
@@ -616,6 +618,226 @@ def r9_presence(run, w):
            got_before is before_val, fi=fn.fi)
 
 
+UPDATE_KINDS = {"UpdateRecord", "BulkUpdateRecord"}
+COLUMN_FLUSH = ("flush_calc_changes_for_column", "pop_column_delta_as_actions")
+
+
+def _column_flush_sites(w, fn, depth=2):
+  """[(cfg node of fn, call in fn, chain of (Fn, flush call) from outermost callee to the actual
+  per-column flush)] for every call of fn that is, or reaches through helpers of the same class /
+  module, ActionGroup.flush_calc_changes_for_column / ActionSummary.pop_column_delta_as_actions."""
+  from ._h_E import callgraph
+  cg = callgraph(w)
+  def direct(c, nm):
+    return any(endswith(nm, x) for x in COLUMN_FLUSH)
+  def reach(f, d, seen):
+    """[(Fn, call)] chains inside helper f down to a direct flush call."""
+    out = []
+    for (n, c, nm) in calls_E(f):
+      if direct(c, nm):
+        out.append([(f, n, c)])
+      elif d > 0:
+        for t in cg.resolve(f, c):
+          if t.qualname in seen or t.module is not f.fi.module:
+            continue
+          for ch in reach(w.fn_of(t), d - 1, seen | {t.qualname}):
+            out.append([(f, n, c)] + ch)
+    return out
+  return reach(fn, depth, {fn.qualname})
+
+
+def r10_update_flush(run, w):
+  R10 = run.rule("C02-R10", "gateway: before an update action is appended to stored, the pending "
+                 "calculated changes of each of its data columns are flushed; the per-column flush "
+                 "is conditional only on the column existing and not being a formula column",
+                 floor=2)
+  gw = w.fn("useractions.UserActions._do_doc_action")
+  cfg = gw.cfg
+  flow = Flow(gw)
+  p_action = gw.fi.params()[1]
+  appends = [(n, c) for (n, c, nm) in calls_E(gw)
+             if endswith(nm, "out_actions.stored.append") and nargs(c) == 1 and c.args]
+  if not appends:
+    raise AnalysisError("gateway: out_actions.stored.append(<action>) not found")
+  chains = _column_flush_sites(w, gw)
+  flush_nodes = {ch[0][1].id for ch in chains}
+  # written in place, the flush sits in a loop over the action's columns: passing that loop is
+  # what matters (which columns qualify is the second obligation), and so is skipping it because
+  # the table does not exist
+  for ch in chains:
+    if len(ch) == 1:
+      col_ = argn(w, gw, ch[0][2], 1)
+      src_ = flow.loop_source(col_, ch[0][1].id) if col_ is not None else None
+      if src_ is not None:
+        flush_nodes.add(src_[1])
+  def no_table(e, i):
+    return isinstance(e, ast.Compare) and len(e.ops) == 1 and isinstance(e.ops[0], ast.Is) and \
+        text(e.comparators[0]) == "None" and \
+        any("tables" in text(l.expr) for l in flow.leaves(e.left, i))
+  def a_table(e, i):
+    return isinstance(e, ast.Name) and any("tables" in text(l.expr) for l in flow.leaves(e, i))
+  skip_edges = flow.edges_where(no_table, True) | flow.edges_where(a_table, False)
+  def update_types(e, i, subject):
+    """Action kinds an `isinstance(<the action>, T)` test names, or None."""
+    if not (isinstance(e, ast.Call) and dotted(e.func) == "isinstance" and len(e.args) == 2):
+      return None
+    if not flow.same_value(e.args[0], i, subject[0], subject[1]) and \
+        flow.itext(e.args[0], i, stop=(p_action,)) != flow.itext(subject[0], subject[1],
+                                                                 stop=(p_action,)):
+      return None
+    t = flow.resolve(e.args[1], i)[0]
+    elts = t.elts if isinstance(t, (ast.Tuple, ast.List)) else [t]
+    return {(dotted(x) or "").split(".")[-1] for x in elts}
+  from ._h_E import nfacts
+  for (sn, sc) in appends:
+    subject = (sc.args[0], sn.id)
+    # edges on which the action is known not to be an update action
+    not_update = set()
+    for n in cfg.nodes:
+      if n.kind != "if" or n.id not in cfg.if_true:
+        continue
+      t_, f_ = flow._if_edges(n.id)
+      for pol, succs in ((True, t_), (False, f_)):
+        excluded = set()
+        for (e, p) in nfacts(n.stmt.test, pol):
+          r_, rn_ = flow.resolve(e, n.id) if isinstance(e, ast.Name) else (e, n.id)
+          ts = update_types(r_, rn_, subject)
+          if ts is not None and p is False:
+            excluded |= ts
+        if UPDATE_KINDS <= excluded:
+          not_update |= {(n.id, x) for x in succs}
+    seen, todo = set(), [cfg.entry.id]
+    while todo:
+      x = todo.pop()
+      if x in seen or x in flush_nodes:
+        continue
+      seen.add(x)
+      todo.extend(y for y in cfg.succ[x] if (x, y) not in not_update and (x, y) not in skip_edges)
+    ok = sn.id not in seen
+    wit = None
+    if not ok:
+      wit = "an update action can reach the append without the flush" + \
+          ("" if chains else " (no call reaching flush_calc_changes_for_column found)")
+    run.ob(R10, gw.qualname, "flush pending calc changes of the updated columns before "
+           "stored.append(%s)" % text(sc.args[0]),
+           "calculated changes of a data column made earlier in the bundle are emitted before a "
+           "later explicit update of the same cells, not after it at the end of the bundle",
+           ok, witness=wit, fi=gw.fi, node=sc, missing=not chains)
+  # the per-column flush itself
+  unfollowed = []
+  def allowed_fact(f, fl, t, pol, i, in_gateway):
+    tt = fl.resolve(t, i)[0] if isinstance(t, ast.Name) else t
+    if in_gateway:
+      ts = update_types(tt, i, (ast.Name(id=p_action, ctx=ast.Load()), i))
+      if ts is not None and pol is True and UPDATE_KINDS <= ts:
+        return True
+      if isinstance(t, ast.Name) and pol is True and \
+          fl.itext(t, i, stop=(p_action,)) in (p_action, p_action + ".simplify()"):
+        return True
+    if isinstance(tt, ast.Call) and isinstance(tt.func, ast.Attribute) and \
+        ((tt.func.attr == "has_column" and pol is True) or
+         (tt.func.attr == "is_formula" and pol is False)):
+      return True
+    if isinstance(tt, ast.Compare) and len(tt.ops) == 1 and isinstance(tt.ops[0], ast.Is) and \
+        text(tt.comparators[0]) == "None" and pol is False:
+      return True       # "<table> is not None"
+    if isinstance(t, ast.Name) and pol is True and \
+        any("tables" in text(l.expr) for l in fl.leaves(t, i)):
+      return True       # "if table:"
+    return False
+  from ._h_E import facts_full as _ff, nfacts as _nf
+  for ch in chains:
+    flows = [flow if f is gw else Flow(f) for (f, n, c) in ch]
+    ok = True
+    why = None
+    for depth_, (f, n, c) in enumerate(ch):
+      fl = flows[depth_]
+      for (t, pol, i) in fl.required_facts(n.id):
+        if not allowed_fact(f, fl, t, pol, i, f is gw):
+          ok = False
+          why = "%s only when `%s` is %s" % (short(c, 50), short(t, 60), pol)
+    # which columns: follow the column argument up the chain, through parameters, filtering
+    # comprehensions (whose filters must be allowed ones too) and list()/keys() wrappers, to
+    # <the action>.columns
+    def columns_source(level, e, k, budget=12):
+      """True / False / None(cannot follow): `e` at node k of chain level `level` ranges over
+      every column of the action (possibly minus allowed exclusions)."""
+      nonlocal ok, why
+      f, n, c = ch[level]
+      fl = flows[level]
+      if budget <= 0:
+        return None
+      e, k = fl.resolve(e, k)
+      if isinstance(e, ast.Name):
+        src = fl.loop_source(e, k)
+        if src is not None:
+          return columns_source(level, src[0], src[1], budget - 1)
+        ps = f.fi.params()
+        if e.id in ps and level > 0 and not fl.du.defs.get(e.id):
+          pf, pn, pc = ch[level - 1]
+          bound = args_by_params(pc, ps[1:] if f.fi.cls is not None and f.fi.parent is None
+                                 else ps)
+          if bound is None or e.id not in bound:
+            return None
+          return columns_source(level - 1, bound[e.id], pn.id, budget - 1)
+        return None
+      if isinstance(e, (ast.ListComp, ast.GeneratorExp, ast.SetComp)) and len(e.generators) == 1 \
+          and text(e.elt) == text(e.generators[0].target):
+        for t_ in e.generators[0].ifs:
+          for (x, pol) in _nf(t_, True, full=True):
+            if not allowed_fact(f, fl, x, pol, k, False):
+              ok = False
+              why = "columns filtered by `%s`" % short(t_, 60)
+        return columns_source(level, e.generators[0].iter, k, budget - 1)
+      if isinstance(e, ast.Call) and dotted(e.func) in ("list", "tuple", "sorted", "set", "iter") \
+          and len(e.args) == 1:
+        return columns_source(level, e.args[0], k, budget - 1)
+      if isinstance(e, ast.Call) and isinstance(e.func, ast.Attribute) and \
+          e.func.attr == "keys" and not e.args:
+        return columns_source(level, e.func.value, k, budget - 1)
+      if isinstance(e, ast.Attribute) and e.attr == "columns":
+        if level == 0:
+          return fl.itext(e.value, k, stop=(p_action,)) in (p_action, p_action + ".simplify()") \
+              or fl.same_value(e.value, k, ast.Name(id=p_action, ctx=ast.Load()), k)
+        return True if action_param(level, e.value, k) else None
+      return None
+    def action_param(level, e, k):
+      """e (at chain level > 0) is the parameter that receives the gateway's action."""
+      f, n, c = ch[level]
+      fl = flows[level]
+      e = fl.resolve(e, k)[0]
+      ps = f.fi.params()
+      if not (isinstance(e, ast.Name) and e.id in ps and not fl.du.defs.get(e.id)):
+        return False
+      pf, pn, pc = ch[level - 1]
+      bound = args_by_params(pc, ps[1:] if f.fi.cls is not None and f.fi.parent is None else ps)
+      if bound is None or e.id not in bound:
+        return False
+      if level - 1 == 0:
+        return flows[0].itext(bound[e.id], pn.id, stop=(p_action,)) in \
+            (p_action, p_action + ".simplify()")
+      return action_param(level - 1, bound[e.id], pn.id)
+    f, n, c = ch[-1]
+    col = argn(w, f, c, 1)
+    res = None
+    if col is not None:
+      e_, k_ = flows[-1].resolve(col, n.id)
+      if isinstance(e_, ast.Name) and e_.id in f.fi.params() and len(ch) > 1 and \
+          not flows[-1].du.defs.get(e_.id):
+        res = columns_source(len(ch) - 1, col, n.id)
+      else:
+        src = flows[-1].loop_source(col, n.id)
+        res = columns_source(len(ch) - 1, src[0], src[1]) if src is not None else None
+    if res is None:
+      unfollowed.append("%s: cannot tell which columns `%s` is called for" % (f.qualname, short(c)))
+      continue
+    run.ob(R10, f.qualname, short(c), "the flush runs for every column of the update action, "
+           "conditional only on the column existing and not being a formula column",
+           ok and res, witness=why, fi=f.fi, node=c)
+  if unfollowed:
+    raise AnalysisError(unfollowed[0])
+
+
 D = "sandbox/grist/docactions.py"
 U = "sandbox/grist/useractions.py"
 EN = "sandbox/grist/engine.py"
@@ -673,6 +895,24 @@ VARIANTS = [
     while self.docmodel.apply_auto_removes():
       self._bring_all_up_to_date()
 """, "C02-R5"),
+  ("update-flush-removed", U,
+   "        self._flush_calc_changes_for_update(action)\n", "        pass\n", "C02-R10"),
+  ("update-flush-after-stored", U,
+   """      if isinstance(action, (actions.UpdateRecord, actions.BulkUpdateRecord)):
+        self._flush_calc_changes_for_update(action)
+      self._engine.out_actions.stored.append(action)
+      self._engine.out_actions.direct.append(self._indirection_level == DIRECT_ACTION)
+""", """      self._engine.out_actions.stored.append(action)
+      self._engine.out_actions.direct.append(self._indirection_level == DIRECT_ACTION)
+      if isinstance(action, (actions.UpdateRecord, actions.BulkUpdateRecord)):
+        self._flush_calc_changes_for_update(action)
+""", "C02-R10"),
+  ("update-flush-only-bulk", U,
+   "      if isinstance(action, (actions.UpdateRecord, actions.BulkUpdateRecord)):\n        self._flush_calc_changes_for_update(action)",
+   "      if isinstance(action, actions.BulkUpdateRecord):\n        self._flush_calc_changes_for_update(action)", "C02-R10"),
+  ("update-flush-skips-columns", U,
+   "      if table.has_column(col_id) and not table.get_column(col_id).is_formula():\n        self._engine.out_actions.flush_calc_changes_for_column(action.table_id, col_id)",
+   "      if table.has_column(col_id) and not table.get_column(col_id).is_formula() and col_id != 'manualSort':\n        self._engine.out_actions.flush_calc_changes_for_column(action.table_id, col_id)", "C02-R10"),
   ("stored-written-elsewhere", U,
    "    self._engine.update_current_time()\n",
    "    self._engine.update_current_time()\n    self._engine.out_actions.stored.append(actions.RemoveTable('X'))\n", "C02-R7"),
